@@ -110,6 +110,25 @@ pub fn decimal_parts(sp: &str) -> (bool, String, i64) {
 	(neg, digits, exp - fp.len() as i64)
 }
 
+/// the same number in plain positional notation (no exponent), when that stays below ~400 characters
+pub fn plain(sp: &str) -> String {
+	let (neg, digits, exp) = decimal_parts(sp);
+	if digits.is_empty() || exp > 40 || exp < -380 {
+		return sp.to_string();
+	}
+	let body = if exp >= 0 {
+		format!("{}{}", digits, "0".repeat(exp as usize))
+	} else {
+		let k = (-exp) as usize;
+		if digits.len() > k {
+			format!("{}.{}", &digits[..digits.len() - k], &digits[digits.len() - k..])
+		} else {
+			format!("0.{}{}", "0".repeat(k - digits.len()), digits)
+		}
+	};
+	format!("{}{}", if neg { "-" } else { "" }, body)
+}
+
 /// an exact respelling of the same real number: shifted exponent, extra
 /// trailing zeros, E / e / + variants
 pub fn respell(rng: &mut Rng, sp: &str) -> String {
@@ -238,6 +257,8 @@ pub fn canon_number(rng: &mut Rng, heavy: bool) -> String {
 		}
 	};
 	let body = if body.starts_with('-') { body[1..].to_string() } else { body };
+	// half of the long spellings are written without an exponent (positional notation, dozens of digits after the point)
+	let body = if matches!(fam, 3 | 4 | 5 | 9 | 10) && rng.chance(1, 2) { plain(&body) } else { body };
 	format!("{neg}{body}")
 }
 
@@ -264,6 +285,13 @@ pub fn hard_numbers(heavy: bool) -> Vec<String> {
 		out.push(format!("{}", exact_decimal(0x3_1234_5678_9ABC, -1074)));
 		// ties in the normal range at the extremes of the exponent range
 		out.push(midpoint_above(0x10_0000_0000_0001, -1074));
+	}
+	// just above a tie, written positionally with more than 40 significant digits and a non-zero integer part
+	for (m, e) in [(0x10_0000_0000_0000u64, -52), (0x10_0000_0000_0000u64, 1), (0x1A_BCDE_F012_3456u64, -30), (0x1F_FFFF_FFFF_FFFFu64, -3)] {
+		let mid = plain(&midpoint_above(m, e));
+		let mid = if mid.contains('.') { mid } else { format!("{mid}.0") };
+		out.push(format!("{mid}{}1", "0".repeat(60usize.saturating_sub(mid.len()))));
+		out.push(format!("-{}4{}9", &mid[..mid.len() - 1], "9".repeat(60usize.saturating_sub(mid.len()))));
 	}
 	out.push(midpoint_above(0x1F_FFFF_FFFF_FFFE, 971));
 	out.push(midpoint_above(0x10_0000_0000_0000, 0));
